@@ -366,7 +366,7 @@ func parse_at(tokens []*Token, token_index int) (*AstLoop, int, error) {
 			loopName = nameToken.Lexeme
 			current_index += 1
 		} else {
-			return nil, current_index, parseError
+			return nil, current_index, NewParseError(nameToken, "Expected identifier following keyword 'named'")
 		}
 	}
 
@@ -485,7 +485,7 @@ func parse_exactly(tokens []*Token, token_index int) (*AstLoop, int, error) {
 			loopName = nameToken.Lexeme
 			current_index += 1
 		} else {
-			return nil, current_index, parseError
+			return nil, current_index, NewParseError(nameToken, "Expected identifier following keyword 'named'")
 		}
 	}
 
